@@ -873,5 +873,91 @@ class PartialsStream(Stream):
         return [case["kind"], case["where"], "ok" if "ok" in obs else "err:" + obs["err"]]
 
 
+class RedefineStream(Stream):
+    """The same {% call %} node executed against different definitions of the macro (a macro redefined between loop
+    iterations, with the same parameter names but other defaults): each call binds against the definition that is
+    current when it runs. Oracle only (expected text written out). Added after seeded change C27-3 (bound arguments
+    cached on the call node, keyed by the parameter names) was missed."""
+
+    name = "redefine"
+    has_model = False
+    exhaustive = True
+
+    def cases(self, ctx):
+        out = []
+        for params in ("a: 'D'", "a: 'D', b: 'E'", "b: 'E', a: 'D'", "a"):
+            for call in ("", "'P'", "b: 'K'", "a: 'K'", "'P', 'Q', 'R'", "zz: 1"):
+                for n in (2, 3):
+                    out.append({"params": params, "call": call, "n": n})
+        return out
+
+    @staticmethod
+    def source(case):
+        body = "[{{ a }}|{{ b }}|{{ args | join: ',' }}|{{ kwargs | size }}]"
+        defs = ""
+        for i in range(1, case["n"] + 1):
+            p = case["params"].replace("'D'", f"'D{i}'").replace("'E'", f"'E{i}'")
+            defs += ("{% if i == " + str(i) + " %}{% macro m " + p + " %}" + str(i) + body + "{% endmacro %}{% endif %}")
+        return "{% for i in (1.." + str(case["n"]) + ") %}" + defs + "{% call m " + case["call"] + " %}{% endfor %}"
+
+    @staticmethod
+    def expected(case):
+        import re
+
+        out = ""
+        for i in range(1, case["n"] + 1):
+            params = [x.strip() for x in case["params"].split(",")]
+            names, dflt = [], {}
+            for x in params:
+                if ":" in x:
+                    k, v = x.split(":")
+                    names.append(k.strip())
+                    dflt[k.strip()] = v.strip().strip("'") + str(i)
+                else:
+                    names.append(x)
+            pos, kw = [], {}
+            for x in [y.strip() for y in case["call"].split(",") if y.strip()]:
+                if ":" in x:
+                    k, v = x.split(":")
+                    kw[k.strip()] = v.strip().strip("'")
+                else:
+                    pos.append(x.strip("'"))
+            bound = {}
+            for j, nme in enumerate(names):
+                if nme in kw:
+                    bound[nme] = kw[nme]
+                elif j < len(pos):
+                    bound[nme] = pos[j]
+                else:
+                    bound[nme] = dflt.get(nme, "")
+            args = pos[len(names):]
+            extra = {k: v for k, v in kw.items() if k not in names}
+            out += f"{i}[{bound.get('a', '')}|{bound.get('b', '')}|{','.join(args)}|{len(extra)}]"
+        return out
+
+    def impl(self, case):
+        from liquid import Environment
+        from liquid.exceptions import LiquidError
+
+        try:
+            return {"out": Environment(extra=True).from_string(self.source(case)).render()}
+        except LiquidError as e:
+            return {"err": type(e).__name__}
+        except Exception as e:  # noqa: BLE001
+            return {"err": "!" + type(e).__name__}
+
+    def oracle(self, case, obs):
+        exp = self.expected(case)
+        if obs.get("out") != exp:
+            return ("redefine|stale-binding", f"{self.source(case)!r} rendered {obs!r}, documented {exp!r}")
+        return None
+
+    def tags(self, case, obs):
+        return [f"n{case['n']}"]
+
+    def shrink_candidates(self, case):
+        return []
+
+
 def streams(ctx):
-    return [BindStream(), CallStream(), WithStream(), WithExitStream(), PartialsStream()]
+    return [BindStream(), CallStream(), WithStream(), WithExitStream(), PartialsStream(), RedefineStream()]
